@@ -83,9 +83,8 @@ func Gen(t *rapid.T) Case {
 	return c
 }
 
-// Enumerate sweeps the lattice completely: every combination of slot contents for TLSClientAuth (the rejecting
-// callback is indistinguishable from the accepting one without a handshake and is left to the corner), then the
-// security-relevant corner with a handshake each: every coherent identity x every root combination x server
+// Enumerate sweeps the lattice completely: every combination of slot contents for TLSClientAuth (every fourth
+// one also through TLSTransport and TLSClient), then the security-relevant corner with a handshake each: every coherent identity x every root combination x server
 // name x insecure flag x callback x server kind, judged through all three entry points.
 func Enumerate(yield func(Case) bool) {
 	i := 0
@@ -98,12 +97,12 @@ func Enumerate(yield func(Case) bool) {
 							for _, pl := range pools {
 								for _, sn := range serverNames {
 									for _, ins := range []bool{false, true} {
-										for _, cb := range []string{"", "accept"} {
+										for _, cb := range callbacks {
 											for _, nt := range []bool{false, true} {
 												for _, ca := range []bool{false, true} {
 													i++
 													c := Case{CertFile: cf, KeyFile: kf, LoadedCert: lc, LoadedKey: lk, CAFile: caf, LoadedCA: lca, Pool: pl,
-														ServerName: sn, Insecure: ins, Callback: cb, NoTickets: nt, Cache: ca, Wrappers: i%16 == 0}
+														ServerName: sn, Insecure: ins, Callback: cb, NoTickets: nt, Cache: ca, Wrappers: i%4 == 0}
 													if !yield(c) {
 														return
 													}
